@@ -55,6 +55,16 @@ var workers = map[string]func(){}
 
 func registerWorker(name string, f func()) { workers[name] = f }
 
+// exit hooks: clean-ups registered by suites, run by main after exec (kept here, not in a suite's file, so that
+// a property-minimal build does not need another property's files)
+var exitHooks []func()
+
+func runExitHooks() {
+	for _, f := range exitHooks {
+		f()
+	}
+}
+
 func main() {
 	log.SetOutput(io.Discard)
 	log.SetLevel(log.PanicLevel)
